@@ -140,6 +140,7 @@ func (loop *EventLoop) schedule(call goja.FunctionCall, repeating bool) goja.Val
 		}
 		job.idx = len(loop.jobs)
 		loop.jobs = append(loop.jobs, job)
+		verifPoint(loop, "sched.js", job)
 		return ret
 	}
 	return nil
@@ -161,6 +162,7 @@ func (loop *EventLoop) setImmediate(call goja.FunctionCall) goja.Value {
 		}
 		f := func() { fn(nil, args...) }
 		if i := loop.addImmediate(f); i != nil {
+			verifPoint(loop, "sched.immediate", &i.job)
 			loop.jobCount++
 			return loop.vm.ToValue(i)
 		}
@@ -182,6 +184,7 @@ func (loop *EventLoop) SetTimeout(fn func(*goja.Runtime), timeout time.Duration)
 		loop.jobCount++
 		t.idx = len(loop.jobs)
 		loop.jobs = append(loop.jobs, &t.job)
+		verifPoint(loop, "sched.go", &t.job)
 	}) {
 		return t
 	}
@@ -211,6 +214,7 @@ func (loop *EventLoop) SetInterval(fn func(*goja.Runtime), timeout time.Duration
 		loop.jobCount++
 		i.idx = len(loop.jobs)
 		loop.jobs = append(loop.jobs, &i.job)
+		verifPoint(loop, "sched.go", &i.job)
 	}) {
 		return i
 	}
@@ -226,6 +230,7 @@ func (loop *EventLoop) ClearInterval(i *Interval) {
 }
 
 func (loop *EventLoop) setRunning() {
+	verifPoint(loop, "setrunning", nil)
 	loop.stopLock.Lock()
 	defer loop.stopLock.Unlock()
 	if loop.running {
@@ -275,22 +280,29 @@ func (loop *EventLoop) StartInForeground() {
 // is not running any jobs. Use StopNoWait() instead.
 // return number of jobs remaining
 func (loop *EventLoop) Stop() int {
+	verifPoint(loop, "stop.enter", nil)
 	loop.stopLock.Lock()
 	for loop.running {
+		verifPoint(loop, "stop.store", nil)
 		atomic.StoreInt32(&loop.canRun, 0)
+		verifPoint(loop, "stop.wake", nil)
 		loop.wakeup()
+		verifPoint(loop, "stop.wait", nil)
 		loop.stopCond.Wait()
 	}
 	loop.stopLock.Unlock()
+	verifPoint(loop, "stop.exit", nil)
 	return int(loop.jobCount)
 }
 
 // StopNoWait tells the loop to stop and returns immediately. Can be used inside the loop. Calling it on a
 // non-running loop has no effect.
 func (loop *EventLoop) StopNoWait() {
+	verifPoint(loop, "snw.enter", nil)
 	loop.stopLock.Lock()
 	if loop.running {
 		atomic.StoreInt32(&loop.canRun, 0)
+		verifPoint(loop, "snw.wake", nil)
 		loop.wakeup()
 	}
 	loop.stopLock.Unlock()
@@ -302,14 +314,17 @@ func (loop *EventLoop) StopNoWait() {
 // After being terminated the loop can be restarted again by using Start() or Run().
 // This method must not be called concurrently with Stop*(), Start(), or Run().
 func (loop *EventLoop) Terminate() {
+	verifPoint(loop, "term.enter", nil)
 	loop.Stop()
 
+	verifPoint(loop, "term.flag", nil)
 	loop.auxJobsLock.Lock()
 	loop.terminated = true
 	loop.auxJobsLock.Unlock()
 
 	loop.runAux()
 
+	verifPoint(loop, "term.cancel", nil)
 	for i := 0; i < len(loop.jobs); i++ {
 		job := loop.jobs[i]
 		if !job.cancelled {
@@ -323,8 +338,10 @@ func (loop *EventLoop) Terminate() {
 	}
 
 	for len(loop.jobs) > 0 {
+		verifPoint(loop, "term.drain", nil)
 		(<-loop.jobChan)()
 	}
+	verifPoint(loop, "term.exit", nil)
 }
 
 // RunOnLoop schedules to run the specified function in the context of the loop as soon as possible.
@@ -337,34 +354,43 @@ func (loop *EventLoop) RunOnLoop(fn func(*goja.Runtime)) bool {
 }
 
 func (loop *EventLoop) runAux() {
+	verifPoint(loop, "runaux.swap", nil)
 	loop.auxJobsLock.Lock()
 	jobs := loop.auxJobs
 	loop.auxJobs = loop.auxJobsSpare
 	loop.auxJobsLock.Unlock()
 	for i, job := range jobs {
+		verifPoint(loop, "runaux.job", nil)
 		job()
 		jobs[i] = nil
 	}
+	verifPoint(loop, "runaux.done", nil)
 	loop.auxJobsSpare = jobs[:0]
 }
 
 func (loop *EventLoop) run(inBackground bool) {
+	verifPoint(loop, "run.enter", nil)
 	loop.runAux()
 	if inBackground {
 		loop.jobCount++
 	}
 LOOP:
 	for loop.jobCount > 0 {
+		verifPoint(loop, "run.select", nil)
 		select {
 		case job := <-loop.jobChan:
+			verifPoint(loop, "run.job", nil)
 			job()
 		case <-loop.wakeupChan:
+			verifPoint(loop, "run.wake", nil)
 			loop.runAux()
+			verifPoint(loop, "run.check", nil)
 			if atomic.LoadInt32(&loop.canRun) == 0 {
 				break LOOP
 			}
 		}
 	}
+	verifPoint(loop, "run.exit", nil)
 	if inBackground {
 		loop.jobCount--
 	}
@@ -373,6 +399,7 @@ LOOP:
 	loop.running = false
 	loop.stopLock.Unlock()
 	loop.stopCond.Broadcast()
+	verifPoint(loop, "run.done", nil)
 }
 
 func (loop *EventLoop) wakeup() {
@@ -383,6 +410,7 @@ func (loop *EventLoop) wakeup() {
 }
 
 func (loop *EventLoop) addAuxJob(fn func()) bool {
+	verifPoint(loop, "aux.enq", nil)
 	loop.auxJobsLock.Lock()
 	if loop.terminated {
 		loop.auxJobsLock.Unlock()
@@ -390,6 +418,7 @@ func (loop *EventLoop) addAuxJob(fn func()) bool {
 	}
 	loop.auxJobs = append(loop.auxJobs, fn)
 	loop.auxJobsLock.Unlock()
+	verifPoint(loop, "aux.wake", nil)
 	loop.wakeup()
 	return true
 }
@@ -405,6 +434,7 @@ func (loop *EventLoop) newTimeout(f func()) *Timer {
 
 func (t *Timer) start(loop *EventLoop, timeout time.Duration) {
 	t.timer = time.AfterFunc(timeout, func() {
+		verifPoint(loop, "timer.fire", &t.job)
 		loop.jobChan <- func() {
 			loop.doTimeout(t)
 		}
@@ -443,6 +473,7 @@ func (loop *EventLoop) addImmediate(f func()) *Immediate {
 }
 
 func (loop *EventLoop) doTimeout(t *Timer) {
+	verifPoint(loop, "deliver.timeout", &t.job)
 	loop.removeJob(&t.job)
 	if !t.cancelled {
 		t.cancelled = true
@@ -452,12 +483,14 @@ func (loop *EventLoop) doTimeout(t *Timer) {
 }
 
 func (loop *EventLoop) doInterval(i *Interval) {
+	verifPoint(loop, "deliver.interval", &i.job)
 	if !i.cancelled {
 		i.fn()
 	}
 }
 
 func (loop *EventLoop) doImmediate(i *Immediate) {
+	verifPoint(loop, "deliver.immediate", &i.job)
 	if !i.cancelled {
 		i.cancelled = true
 		loop.jobCount--
@@ -466,6 +499,7 @@ func (loop *EventLoop) doImmediate(i *Immediate) {
 }
 
 func (loop *EventLoop) clearTimeout(t *Timer) {
+	verifPoint(loop, "clear.timeout", t)
 	if t != nil && !t.cancelled {
 		t.cancelled = true
 		loop.jobCount--
@@ -476,6 +510,7 @@ func (loop *EventLoop) clearTimeout(t *Timer) {
 }
 
 func (loop *EventLoop) clearInterval(i *Interval) {
+	verifPoint(loop, "clear.interval", i)
 	if i != nil && !i.cancelled {
 		i.cancelled = true
 		loop.jobCount--
@@ -522,6 +557,7 @@ func (loop *EventLoop) removeJob(job *job) {
 }
 
 func (loop *EventLoop) clearImmediate(i *Immediate) {
+	verifPoint(loop, "clear.immediate", i)
 	if i != nil && !i.cancelled {
 		i.cancelled = true
 		loop.jobCount--
@@ -540,17 +576,22 @@ func (t *Timer) doCancel() bool {
 func (i *Interval) run(loop *EventLoop) {
 L:
 	for {
+		verifPoint(loop, "ival.select", &i.job)
 		select {
 		case <-i.stopChan:
+			verifPoint(loop, "ival.stop", &i.job)
 			i.ticker.Stop()
 			break L
 		case <-i.ticker.C:
+			verifPoint(loop, "ival.tick", &i.job)
 			loop.jobChan <- func() {
 				loop.doInterval(i)
 			}
 		}
 	}
+	verifPoint(loop, "ival.remove", &i.job)
 	loop.jobChan <- func() {
+		verifPoint(loop, "deliver.remove", &i.job)
 		loop.removeJob(&i.job)
 	}
 }
